@@ -3,6 +3,7 @@ import Proofs.VJP
 import Proofs.SkipWalk
 import Proofs.SkipLinks
 import Proofs.SkipMLP
+import Proofs.SkipTyped
 
 /-!
 # C16 — skip connections combine source and target inputs as configured
@@ -858,5 +859,35 @@ example :
     simp only [List.mem_singleton] at he
     subst he
     decide
+
+open LayerChain SkipWalk SkipNet SkipPad SkipTyped VJP in
+/-- **the general form: any sequence of typed layers with any table of additive skip connections between positions of
+    one shape** — the layers `ds` are given with the shapes ("slots" `k₁ → k₂`, any finite family `T` of index types
+    with encodings `enc`) they map between and the vector functions they realise (every layer kind that is a link of
+    C01's chain theorem is such a typed layer: dense, convolution, deconvolution, max-pool, with or without
+    flattening); the table connects positions of equal slot whose encoding adds (`EncAdd`).  On the model's own
+    `Network.forward` / `Network.backward` folds the network computes the value recursion `U` (layer `j`: read slot
+    `k₁`, apply its function, write slot `k₂` — `SkipTyped.padded_layer_step`) and hands back the gradient of the
+    objective. -/
+theorem typed_layers_any_skips_network_gradient {K : Type} [Fintype K] [DecidableEq K] [Inhabited K] {T : K → Type}
+    [∀ k, Fintype (T k)] (enc : (k : K) → Enc ⟨T k⟩) (n : Network ℝ) (ds : List (TLink T)) (tbl : List (Nat × Nat))
+    (hl : n.layers = ds.map (·.l))
+    (hc : n.connect = tbl) (hacc : n.skipaccumulation = .add) (hlb : n.loopbacks = [])
+    (hkeys : (tbl.map Prod.fst).Nodup) (hbd : ∀ e ∈ tbl, e.2 ≤ e.1 ∧ e.1 < ds.length)
+    (hw : ∀ e ∈ tbl, SkipTyped.slotAt ds e.1 = SkipTyped.slotAt ds e.2 ∧ EncAdd (enc (SkipTyped.slotAt ds e.1)))
+    (hfit : SkipTyped.Fits ds)
+    (x₀ : V (T (SkipTyped.slotAt ds 0))) (ℓ : V (T (SkipTyped.slotAt ds ds.length)) → ℝ) (g₀ : V (T (SkipTyped.slotAt ds ds.length))) :
+    let N := dagNet (ds.map tlink) tbl
+    let F := fun z : V (T (SkipTyped.slotAt ds 0)) =>
+      proj T (SkipTyped.slotAt ds ds.length) (SkipDag.U N ds.length (emb T (SkipTyped.slotAt ds 0) z))
+    (∀ (j : Nat) d, ds[j]? = some d → d.Real enc (proj T d.k₁ (SkipDag.P N j (emb T (SkipTyped.slotAt ds 0) x₀)))) →
+    (∀ (j : Nat) d, ds[j]? = some d → IsVJP d.f (proj T d.k₁ (SkipDag.P N j (emb T (SkipTyped.slotAt ds 0) x₀)))
+      (d.b (proj T d.k₁ (SkipDag.P N j (emb T (SkipTyped.slotAt ds 0) x₀))))) →
+    IsGrad ℓ (F x₀) g₀ →
+    ∃ t ws bs gs γ,
+      n.forward (enc (SkipTyped.slotAt ds 0) x₀) = .ok t ∧ t.act.getLast? = some (enc (SkipTyped.slotAt ds ds.length) (F x₀)) ∧
+      n.backward (enc (SkipTyped.slotAt ds ds.length) g₀) t = .ok (ws, bs, gs) ∧
+      gs.getLast? = some (enc (SkipTyped.slotAt ds 0) γ) ∧ IsGrad (ℓ ∘ F) x₀ γ :=
+  typed_skip_network_gradient enc n ds tbl hl hc hacc hlb hkeys hbd hw hfit x₀ ℓ g₀
 
 end C16
